@@ -68,6 +68,7 @@ type spec struct {
 	arms                      []string                // switch arms / error exits this file is aimed at
 	patch                     func(file []byte, pw string) []byte // change inside the authSafe content, MAC recomputed
 	feat                      []string                // pairwise features (filled in for the pairwise set)
+	rebuild                   func(t *pfxTree)        // change behind re-encryption and a recomputed MAC (lengths may change)
 }
 
 func main() {
@@ -239,6 +240,63 @@ func main() {
 			return c
 		})
 	}, arms: []string{"ErrDecryption"}})
+	// every strictness check AFTER decryption: the plaintext of an encrypted container (or of a MAC-covered wrapper) is
+	// changed, padded again, re-encrypted under the same PBE parameters, all lengths re-encoded and the MAC recomputed.
+	// shape=free: no oracle, the Lean reader alone predicts the class.
+	appendN := func(n int) func([]byte) []byte {
+		return func(p []byte) []byte { return append(p, bytes.Repeat([]byte{0}, n)...) }
+	}
+	appendTLV := func(p []byte) []byte { return append(p, 0x05, 0x00) }
+	prepend := func(p []byte) []byte { return append([]byte{0x05, 0x00}, p...) }
+	inTree := func(f func(n *node)) func([]byte) []byte {
+		return func(p []byte) []byte { n, _ := parseNode(p); f(n); return n.enc() }
+	}
+	type rb struct {
+		name, key, certpbe, keypbe string
+		f                          func(t *pfxTree)
+	}
+	oidRsa, oidEc, oid123 := unhex("2a864886f70d010101"), unhex("2a8648ce3d0201"), unhex("2a03")
+	for _, x := range []rb{
+		{"key-trailing-1", "rsa1024", rc2, des3, func(t *pfxTree) { t.key(appendN(1)) }},
+		{"key-trailing-8", "p256", rc2, des3, func(t *pfxTree) { t.key(appendN(8)) }},
+		{"key-trailing-16-rc2", "rsa1024", des3, rc2, func(t *pfxTree) { t.key(appendN(16)) }},
+		{"key-trailing-tlv-rc2", "p256", des3, rc2, func(t *pfxTree) { t.key(appendTLV) }},
+		{"key-prepend", "p256", rc2, des3, func(t *pfxTree) { t.key(prepend) }},
+		{"key-truncated-tlv", "rsa1024", rc2, des3, func(t *pfxTree) { t.key(inTree(func(n *node) { n.kids = n.kids[:len(n.kids)-1] })) }},
+		{"key-version-1", "rsa1024", rc2, des3, func(t *pfxTree) { t.key(inTree(func(n *node) { n.kids[0].val = []byte{1} })) }},
+		{"key-extra-element-inside", "p256", rc2, des3, func(t *pfxTree) { t.key(inTree(func(n *node) { n.kids = append(n.kids, &node{tag: 0x05}) })) }},
+		{"key-oid-rsa-as-ec", "rsa1024", rc2, des3, func(t *pfxTree) { t.key(inTree(func(n *node) { n.kids[1].kids[0].val = oidEc })) }},
+		{"key-oid-ec-as-rsa", "p256", rc2, des3, func(t *pfxTree) { t.key(inTree(func(n *node) { n.kids[1].kids[0].val = oidRsa })) }},
+		{"key-oid-unknown", "rsa1024", rc2, rc2, func(t *pfxTree) { t.key(inTree(func(n *node) { n.kids[1].kids[0].val = oid123 })) }},
+		{"key-wrapper-trailing", "p256", rc2, des3, func(t *pfxTree) { t.keyBagValueTrailing() }},
+		{"certsafe-trailing-1-rc2", "rsa1024", rc2, des3, func(t *pfxTree) { t.certSafe(appendN(1)) }},
+		{"certsafe-trailing-8-3des", "p256", des3, des3, func(t *pfxTree) { t.certSafe(appendN(8)) }},
+		{"certsafe-trailing-16-rc2", "p256", rc2, des3, func(t *pfxTree) { t.certSafe(appendN(16)) }},
+		{"certsafe-trailing-tlv", "rsa1024", des3, des3, func(t *pfxTree) { t.certSafe(appendTLV) }},
+		{"certsafe-prepend", "rsa1024", rc2, des3, func(t *pfxTree) { t.certSafe(prepend) }},
+		{"certsafe-attrs-dropped", "p256", rc2, des3, func(t *pfxTree) { t.certSafe(inTree(func(n *node) { b := n.kids[0]; b.kids = b.kids[:2] })) }},
+		{"certbag-value-dropped", "p256", rc2, des3, func(t *pfxTree) { t.certSafe(inTree(func(n *node) { b := n.kids[0]; b.kids = b.kids[:1] })) }},
+		{"certbag-wrapper-trailing", "rsa1024", rc2, des3, func(t *pfxTree) {
+			t.certSafe(inTree(func(n *node) { w := n.kids[0].kids[1]; w.kids = append(w.kids, &node{tag: 0x05}) }))
+		}},
+		{"certbag-extra-element", "rsa1024", des3, des3, func(t *pfxTree) {
+			t.certSafe(inTree(func(n *node) { cb := n.kids[0].kids[1].kids[0]; cb.kids = append(cb.kids, &node{tag: 0x05}) }))
+		}},
+		{"cert-octets-wrapper-trailing", "p256", rc2, des3, func(t *pfxTree) {
+			t.certSafe(inTree(func(n *node) { w := n.kids[0].kids[1].kids[0].kids[1]; w.kids = append(w.kids, &node{tag: 0x05}) }))
+		}},
+		{"cert-der-trailing", "p256", rc2, des3, func(t *pfxTree) {
+			t.certSafe(inTree(func(n *node) { o := n.kids[0].kids[1].kids[0].kids[1].kids[0]; o.val = append(o.val, 0, 0, 0) }))
+		}},
+		{"cert-der-twice", "rsa1024", rc2, des3, func(t *pfxTree) {
+			t.certSafe(inTree(func(n *node) { o := n.kids[0].kids[1].kids[0].kids[1].kids[0]; o.val = append(o.val, o.val...) }))
+		}},
+		{"authsafe-trailing", "rsa1024", rc2, des3, func(t *pfxTree) { t.trailAuthSafe = []byte{0x05, 0x00} }},
+		{"keysafe-trailing", "p256", rc2, des3, func(t *pfxTree) { t.trailKeySafe = []byte{0} }},
+		{"encdata-extra-element", "p256", rc2, des3, func(t *pfxTree) { t.encData.kids = append(t.encData.kids, &node{tag: 0x05}) }},
+	} {
+		add(spec{key: x.key, pw: "rb-" + x.name, fname: "rb", iter: 2, certpbe: x.certpbe, keypbe: x.keypbe, shape: "free", rebuild: x.f, arms: []string{"post-decrypt:" + x.name}})
+	}
 	add(spec{key: "rsa1024", pw: "version4", iter: 2, shape: "other", patch: func(f []byte, pw string) []byte { f[6] = 4; return f }, arms: []string{"pfx-version"}})
 	add(spec{key: "rsa1024", pw: "signed-data", iter: 2, shape: "other", patch: func(f []byte, pw string) []byte { f[21] = 2; return f }, arms: []string{"authsafe-type"}})
 
@@ -270,6 +328,11 @@ func main() {
 		}
 		if s.patch != nil {
 			file = s.patch(file, s.pw)
+		}
+		if s.rebuild != nil {
+			t := openTree(file, s.pw)
+			s.rebuild(t)
+			file = t.close()
 		}
 		kp, err := os.ReadFile(filepath.Join(work, s.key+".key.pem"))
 		must(err)
@@ -517,4 +580,167 @@ func rekeyToNullPassword(file []byte) []byte {
 		panic("rekey: digest not unique")
 	}
 	return bytes.Replace(out, pfx.MacData.Mac.Digest, m.Sum(nil), 1)
+}
+
+// ---- generic DER tree and re-building of a PFX behind re-encryption and a recomputed MAC ------------------------
+
+type node struct {
+	tag  byte
+	val  []byte  // primitive contents
+	kids []*node // constructed contents
+}
+
+func parseNode(b []byte) (*node, []byte) {
+	tag, l, off := b[0], int(b[1]), 2
+	if l >= 0x80 {
+		k := l - 0x80
+		l = 0
+		for i := 0; i < k; i++ {
+			l = l<<8 | int(b[2+i])
+		}
+		off = 2 + k
+	}
+	body, rest := b[off:off+l], b[off+l:]
+	n := &node{tag: tag}
+	if tag&0x20 != 0 {
+		for len(body) > 0 {
+			var c *node
+			c, body = parseNode(body)
+			n.kids = append(n.kids, c)
+		}
+	} else {
+		n.val = append([]byte{}, body...)
+	}
+	return n, rest
+}
+
+func (n *node) enc() []byte {
+	body := n.val
+	if n.tag&0x20 != 0 {
+		body = nil
+		for _, c := range n.kids {
+			body = append(body, c.enc()...)
+		}
+	}
+	var hdr []byte
+	switch l := len(body); {
+	case l < 0x80:
+		hdr = []byte{n.tag, byte(l)}
+	case l < 0x100:
+		hdr = []byte{n.tag, 0x81, byte(l)}
+	default:
+		hdr = []byte{n.tag, 0x82, byte(l >> 8), byte(l)}
+	}
+	return append(hdr, body...)
+}
+
+type pfxTree struct {
+	pw                          string
+	root, content, keySafe      *node   // PFX; AuthenticatedSafe; SafeContents of the data ContentInfo
+	contentOctets, keySafeOctet *node   // the OCTET STRINGs that carry them
+	encData                     *node   // EncryptedData SEQUENCE of the encrypted ContentInfo (nil with -certpbe NONE)
+	certAlg, certCT             *node   // its AlgorithmIdentifier and ciphertext
+	keyBag, keyAlg, keyCT       *node   // the shrouded key bag, its AlgorithmIdentifier and ciphertext
+	trailAuthSafe, trailKeySafe []byte  // octets appended after the SEQUENCE inside the OCTET STRING
+}
+
+func openTree(file []byte, pw string) *pfxTree {
+	t := &pfxTree{pw: pw}
+	t.root, _ = parseNode(file)
+	t.contentOctets = t.root.kids[1].kids[1].kids[0]
+	t.content, _ = parseNode(t.contentOctets.val)
+	for _, ci := range t.content.kids {
+		if bytes.Equal(ci.kids[0].val, unhex("2a864886f70d010706")) {
+			t.encData = ci.kids[1].kids[0]
+			eci := t.encData.kids[1]
+			t.certAlg, t.certCT = eci.kids[1], eci.kids[2]
+		} else {
+			t.keySafeOctet = ci.kids[1].kids[0]
+			t.keySafe, _ = parseNode(t.keySafeOctet.val)
+			for _, b := range t.keySafe.kids {
+				if bytes.Equal(b.kids[0].val, unhex("2a864886f70d010c0a0102")) {
+					t.keyBag = b
+					epki := b.kids[1].kids[0]
+					t.keyAlg, t.keyCT = epki.kids[0], epki.kids[1]
+				}
+			}
+		}
+	}
+	return t
+}
+
+// pbe decrypts or encrypts under an AlgorithmIdentifier { pbeWithSHAAnd3-KeyTripleDES-CBC | …40BitRC2-CBC, { salt, iterations } }.
+// 3DES from the standard library, RC2-40 from `openssl enc -rc2-40-cbc` (legacy provider); nothing from x/crypto/pkcs12.
+func (t *pfxTree) pbe(alg *node, in []byte, decrypt bool) []byte {
+	salt := alg.kids[1].kids[0].val
+	iter := 0
+	for _, b := range alg.kids[1].kids[1].val {
+		iter = iter<<8 | int(b)
+	}
+	iv := kdfB(salt, bmp(t.pw), iter, 2, 8)
+	if bytes.Equal(alg.kids[0].val, unhex("2a864886f70d010c0103")) {
+		blk, err := des.NewTripleDESCipher(kdfB(salt, bmp(t.pw), iter, 1, 24))
+		must(err)
+		out := make([]byte, len(in))
+		if decrypt {
+			cipher.NewCBCDecrypter(blk, iv).CryptBlocks(out, in)
+		} else {
+			cipher.NewCBCEncrypter(blk, iv).CryptBlocks(out, in)
+		}
+		return out
+	}
+	mode := "-e"
+	if decrypt {
+		mode = "-d"
+	}
+	c := exec.Command("openssl", "enc", "-rc2-40-cbc", mode, "-nopad", "-K", hex.EncodeToString(kdfB(salt, bmp(t.pw), iter, 1, 5)),
+		"-iv", hex.EncodeToString(iv), "-provider", "legacy", "-provider", "default")
+	c.Stdin = bytes.NewReader(in)
+	out, err := c.Output()
+	must(err)
+	if len(out) != len(in) {
+		panic("openssl enc: length")
+	}
+	return out
+}
+
+func (t *pfxTree) recrypt(alg, ct *node, f func([]byte) []byte) {
+	p := t.pbe(alg, ct.val, true)
+	k := int(p[len(p)-1])
+	if k < 1 || k > 8 {
+		panic("recrypt: padding of the original")
+	}
+	p = f(p[:len(p)-k])
+	k = 8 - len(p)%8
+	p = append(p, bytes.Repeat([]byte{byte(k)}, k)...)
+	ct.val = t.pbe(alg, p, false)
+}
+
+func (t *pfxTree) key(f func([]byte) []byte)      { t.recrypt(t.keyAlg, t.keyCT, f) }
+func (t *pfxTree) certSafe(f func([]byte) []byte) { t.recrypt(t.certAlg, t.certCT, f) }
+
+// keyBagValueTrailing appends an element after the EncryptedPrivateKeyInfo inside the bag's [0] wrapper.
+func (t *pfxTree) keyBagValueTrailing() { w := t.keyBag.kids[1]; w.kids = append(w.kids, &node{tag: 0x05}) }
+
+func (t *pfxTree) close() []byte {
+	t.keySafeOctet.val = append(t.keySafe.enc(), t.trailKeySafe...)
+	// the data ContentInfo holds keySafeOctet by pointer only through a re-parse: write it back into the content tree
+	for _, ci := range t.content.kids {
+		if !bytes.Equal(ci.kids[0].val, unhex("2a864886f70d010706")) {
+			ci.kids[1].kids[0] = t.keySafeOctet
+		}
+	}
+	t.contentOctets.val = append(t.content.enc(), t.trailAuthSafe...)
+	mac := t.root.kids[2]
+	iter := 1
+	if len(mac.kids) > 2 {
+		iter = 0
+		for _, b := range mac.kids[2].val {
+			iter = iter<<8 | int(b)
+		}
+	}
+	m := hmac.New(sha1.New, kdfB(mac.kids[1].val, bmp(t.pw), iter, 3, 20))
+	m.Write(t.contentOctets.val)
+	mac.kids[0].kids[1].val = m.Sum(nil)
+	return t.root.enc()
 }
